@@ -69,9 +69,17 @@ class ProgGen:
         self.plain_d4 = []      # imported module variables holding a function (known miss)
         self.hofs = []          # higher-order functions: dict(name, params, cbp, xp, style)
         self.makers = []        # (expr, needs_arg) returning a plain function
+        self.pickers = set()    # makers with several returns (value-set sources)
         self.classes = []       # dict(name, methods, inherited, ctor, visit, ...)
         self.recs = []          # recursive plain functions (called with small literals)
         self.kinds = []         # what was generated (coverage)
+        # file names are random so that every processing order of definer / re-exporter / importer occurs
+        # (lian processes units in directory-listing order)
+        letters = "abcdefghijklmnopqrstuvwxyz"
+        self.mainmod = self.r.choice(letters) + "_main" if self.r.random() < 0.6 else "m"
+        self.hmod = self.r.choice(letters) + "_util" if self.r.random() < 0.6 else "u1"
+        self.extra_files = {}   # re-exporting modules
+        self.nre = 0
 
     # -- helpers
     def pick(self, xs):
@@ -90,7 +98,7 @@ class ProgGen:
         return self.ndec - 1
 
     def _claim(self, nm):
-        if nm in self.used_names or nm in ("D", "t", "sys", "u1", "self", "range", "ep_main", "w2", "s"):
+        if nm in self.used_names or nm in ("D", "t", "sys", "u1", "self", "range", "ep_main", "w2", "s", self.hmod, self.mainmod):
             return False
         self.used_names.add(nm)
         return True
@@ -251,6 +259,31 @@ class ProgGen:
         """a plain callable passed / stored as a value"""
         return self.callee()["expr"]
 
+    def cbsrc(self, I):
+        """a callback VALUE to be passed / stored: a plain name, or a variable that can hold one of 2-3 functions
+        (if/else, if/elif/else, a multi-return picker, a container element with a constant index).
+        Returns (lines to emit before, expression)."""
+        m = self.pick(["name", "name", "name", "name", "branch", "branch3", "picker", "container"])
+        if m == "picker" and not [x for x in self.makers if x[0] in self.pickers]:
+            m = "branch"
+        if m == "name":
+            return [], self.fval()
+        q = self.fresh("cbv")
+        self.note("valueset-" + m)
+        if m == "branch":
+            d = self.new_dec()
+            return [f"{I}if D[{d}] == \"1\":", f"{I}    {q} = {self.fval()}", f"{I}else:", f"{I}    {q} = {self.fval()}"], q
+        if m == "branch3":
+            d = self.new_dec(); d2 = self.new_dec()
+            return [f"{I}if D[{d}] == \"1\":", f"{I}    {q} = {self.fval()}", f"{I}elif D[{d2}] == \"1\":", f"{I}    {q} = {self.fval()}",
+                    f"{I}else:", f"{I}    {q} = {self.fval()}"], q
+        if m == "picker":
+            mk = self.pick([x for x in self.makers if x[0] in self.pickers])[0]
+            return [f"{I}{q} = {mk}()"], q
+        fs = self.fresh("fs")
+        n = self.r.randint(2, 3)
+        return [f"{I}{fs} = [" + ", ".join(self.fval() for _ in range(n)) + "]", f"{I}{q} = {fs}[{self.r.randrange(n)}]"], q
+
     def sig_text(self, e):
         parts = [e["p"]] + [f"{n}={d}" for n, d in e["extra"]]
         if e.get("va"):
@@ -293,25 +326,28 @@ class ProgGen:
             cn = self.fresh("UK")
             mm = self.fresh("um")
             self.helper += [f"class {cn}:", f"    def {mm}(self, x):", f"        return {self.pick(recs)['expr']}(x)"]
-            cls = dict(name=cn, methods=[dict(name=mm, extra=[])], ctor=None, module="u1", inherited=[])
+            cls = dict(name=cn, methods=[dict(name=mm, extra=[])], ctor=None, module="u1", inherited=[], bases=[])
         # import styles
         for e in recs:
             nm = e["expr"]
             style = r.random()
             if style < self.w["k1"]:
-                if "import u1" not in self.imports:
-                    self.imports.append("import u1")
-                self.plain_k1.append(dict(e, expr=f"u1.{nm}", own=False))
+                if f"import {self.hmod}" not in self.imports:
+                    self.imports.append(f"import {self.hmod}")
+                self.plain_k1.append(dict(e, expr=f"{self.hmod}.{nm}", own=False))
                 self.note("import-module-attr")
-            elif style < 0.55:
-                self.imports.append(f"from u1 import {nm}")
+            elif style < 0.40:
+                self.imports.append(f"from {self.hmod} import {nm}")
                 self.plain.append(dict(e, own=False))
                 self.note("from-import")
-            else:
+            elif style < 0.65:
                 al = self.fresh("al")
-                self.imports.append(f"from u1 import {nm} as {al}")
+                self.imports.append(f"from {self.hmod} import {nm} as {al}")
                 self.plain.append(dict(e, expr=al, own=False))
                 self.note("from-import-as")
+            else:
+                local = self.reexport(nm)
+                self.plain.append(dict(e, expr=local, own=False))
         if self.chance(self.w["d4"]):
             # a module-level variable of the helper holding a function, imported by name
             tn = self.fresh_fn("uh")
@@ -320,23 +356,64 @@ class ProgGen:
             hv = self.fresh("hv")
             self.helper += [f"{hv} = {tn}"]
             if self.chance(0.5):
-                self.imports.append(f"from u1 import {hv}")
+                self.imports.append(f"from {self.hmod} import {hv}")
                 self.plain_d4.append(dict(e, expr=hv, own=False))
             else:
                 al = self.fresh("hva")
-                self.imports.append(f"from u1 import {hv} as {al}")
+                self.imports.append(f"from {self.hmod} import {hv} as {al}")
                 self.plain_d4.append(dict(e, expr=al, own=False))
             self.note("import-variable-holding-function")
         if cls:
-            if self.chance(0.7):
-                self.imports.append(f"from u1 import {cls['name']}")
-            else:
+            r_ = self.r.random()
+            if r_ < 0.5:
+                self.imports.append(f"from {self.hmod} import {cls['name']}")
+            elif r_ < 0.75:
                 al = self.fresh("UKa")
-                self.imports.append(f"from u1 import {cls['name']} as {al}")
+                self.imports.append(f"from {self.hmod} import {cls['name']} as {al}")
                 cls = dict(cls, name=al, real=cls["name"])
                 self.note("imported-class-as")
-            self.classes.append(cls)
+            else:
+                local = self.reexport(cls["name"])
+                cls = dict(cls, name=local, real=cls["name"])
+            self.add_class(cls)
             self.note("imported-class")
+
+    def reexport(self, name):
+        """import `name` of the helper module into the main module through a chain of 1-2 re-exporting modules
+        (random file names, an alias or a star import on each hop); returns the local name in the main module"""
+        hops = self.r.randint(1, 2)
+        src, cur = self.hmod, name
+        for h in range(hops):
+            self.nre += 1
+            mod = self.r.choice("abcdefghijklmnopqrstuvwxyz") + f"_re{self.nre}"
+            mode = self.pick(["plain", "plain", "alias", "star"])
+            if mode == "star" and cur.startswith("_"):
+                mode = "plain"
+            if mode == "plain":
+                line = f"from {src} import {cur}"
+            elif mode == "alias":
+                nxt = self.fresh("rx")
+                line = f"from {src} import {cur} as {nxt}"
+                cur = nxt
+            else:
+                line = f"from {src} import *"
+            self.extra_files[mod + ".py"] = line + "\n"
+            self.note(f"reexport-hop-{mode}")
+            src = mod
+        self.note(f"reexport-chain-{hops}")
+        mode = self.pick(["plain", "alias", "alias", "star"])
+        if mode == "star" and cur.startswith("_"):
+            mode = "plain"
+        if mode == "plain":
+            self.imports.append(f"from {src} import {cur}")
+        elif mode == "alias":
+            al = self.fresh("ral")
+            self.imports.append(f"from {src} import {cur} as {al}")
+            cur = al
+        else:
+            self.imports.append(f"from {src} import *")
+            self.note("import-star-main")
+        return cur
 
     # -- calls of the other kinds
     def call_hof(self, h, cbexpr, arg):
@@ -405,7 +482,8 @@ class ProgGen:
         if k == "nested-arg":
             return [f"{I}t = {self.fcall(self.fcall(var))}"]
         if k == "callback":
-            return [f"{I}t = {self.call_hof(self.pick(self.hofs), self.fval(), var)}"]
+            pre, cbx = self.cbsrc(I)
+            return pre + [f"{I}t = {self.call_hof(self.pick(self.hofs), cbx, var)}"]
         if k == "lambda":
             return [f"{I}t = {self.call_hof(self.pick(self.hofs), 'lambda v: ' + self.fcall('v'), var)}"]
         if k == "nested-def":
@@ -429,7 +507,8 @@ class ProgGen:
             c = self.pick([c for c in normal if self.visit_methods(c)])
             m = self.pick(self.visit_methods(c))
             o = self.fresh("o")
-            return [f"{I}{o} = {self.call_ctor(c, var)}", f"{I}t = {self.call_method(o, m, var, cb=self.fval())}"]
+            pre, cbx = self.cbsrc(I)
+            return pre + [f"{I}{o} = {self.call_ctor(c, var)}", f"{I}t = {self.call_method(o, m, var, cb=cbx)}"]
         if k == "visit-candidates":
             # receiver with several candidate classes that all have the method (overriding)
             c = self.pick([c for c in normal if self.visit_methods(c)])
@@ -437,8 +516,9 @@ class ProgGen:
             cands = [c2 for c2 in normal if any(m2["name"] == m["name"] for m2 in self.visit_methods(c2))]
             c2 = self.pick(cands)
             d = self.new_dec(); o = self.fresh("o")
-            return [f"{I}if D[{d}] == \"1\":", f"{I}    {o} = {self.call_ctor(c, var)}", f"{I}else:", f"{I}    {o} = {self.call_ctor(c2, var)}",
-                    f"{I}t = {self.call_method(o, m, var, cb=self.fval())}"]
+            pre, cbx = self.cbsrc(I)
+            return pre + [f"{I}if D[{d}] == \"1\":", f"{I}    {o} = {self.call_ctor(c, var)}", f"{I}else:", f"{I}    {o} = {self.call_ctor(c2, var)}",
+                          f"{I}t = {self.call_method(o, m, var, cb=cbx)}"]
         if k == "returned":
             mk, needs = self.pick(self.makers)
             q = self.fresh("q")
@@ -478,11 +558,12 @@ class ProgGen:
         if k in ("field-out", "field-in"):
             c = self.pick([c for c in self.classes if c.get("box")])
             o = self.fresh("bx")
-            mk = f"{I}{o} = {self.call_ctor(c, var, cb=self.fval())}"
+            pre, cbx = self.cbsrc(I)
+            mk = f"{I}{o} = {self.call_ctor(c, var, cb=cbx)}"
             if k == "field-out":
-                return [mk, f"{I}t = {o}.cb({var})"]
+                return pre + [mk, f"{I}t = {o}.cb({var})"]
             self.note("K3-field-in-method")
-            return [mk, f"{I}t = {self.call_method(o, c['run'], var)}"]
+            return pre + [mk, f"{I}t = {self.call_method(o, c['run'], var)}"]
         raise AssertionError(k)
 
     def pad(self):
@@ -569,7 +650,7 @@ class ProgGen:
 
     def gen_maker(self):
         nm = self.fresh_fn("mk")
-        k = self.pick(["global", "global-pre", "nested", "param", "branch"])
+        k = self.pick(["global", "global-pre", "nested", "param", "branch", "branch", "branch3"])
         self.note("maker-" + k)
         own = [e["expr"] for e in self.plain] or ["abs"]
         if k == "global":          # the whole body is `return <global function>`
@@ -585,11 +666,16 @@ class ProgGen:
         elif k == "param":
             self.main += [f"def {nm}(fn):", "    return fn"]
             self.makers.append((nm, True))
-        else:
+        elif k == "branch":
             d = self.new_dec()
             self.main += [f"def {nm}():", f"    if D[{d}] == \"1\":", f"        return {self.pick(own)}",
                           f"    return {self.pick(own)}"]
-            self.makers.append((nm, False))
+            self.makers.append((nm, False)); self.pickers.add(nm)
+        else:
+            d = self.new_dec(); d2 = self.new_dec()
+            self.main += [f"def {nm}():", f"    if D[{d}] == \"1\":", f"        return {self.pick(own)}",
+                          f"    if D[{d2}] == \"1\":", f"        return {self.pick(own)}", f"    return {self.pick(own)}"]
+            self.makers.append((nm, False)); self.pickers.add(nm)
 
     def gen_rec(self):
         k = self.pick(["self", "mutual", "self-calls-out", "mutual3"])
@@ -608,27 +694,70 @@ class ProgGen:
                 self.pad() if self.chance(0.3) else None
             self.recs += [dict(expr=nm, p="n", extra=[], va=None, kw=None) for nm in ns]
 
-    def gen_class(self):
+    @staticmethod
+    def c3(bases):
+        """C3 linearisation of the bases' MROs (records compared by identity); None when inconsistent"""
+        seqs = [list(b["mro"]) for b in bases] + [list(bases)]
+        res = []
+        while True:
+            seqs = [q for q in seqs if q]
+            if not seqs:
+                return res
+            cand = None
+            for q in seqs:
+                c = q[0]
+                if not any(c is x for t in seqs for x in t[1:]):
+                    cand = c
+                    break
+            if cand is None:
+                return None
+            res.append(cand)
+            for q in seqs:
+                if q and q[0] is cand:
+                    del q[0]
+
+    def add_class(self, rec):
+        rec.setdefault("bases", [])
+        rec["mro"] = [rec] + (self.c3(rec["bases"]) or [])
+        self.classes.append(rec)
+        return rec
+
+    def gen_class(self, bases=None, override=None, nmethods=None):
+        """bases: forced list of base records (else chosen at random: none / one / two incl. diamonds);
+        override: probability of overriding each inherited method (plain and visitor)"""
         r = self.r
         nm = self.fresh("C")
-        base = None
         cands = [c for c in self.classes if not c.get("box")]
-        if cands and self.chance(0.55):
-            base = self.pick(cands)
-        kind = self.pick(["plain", "plain", "box"]) if not base else "plain"
+        if bases is None:
+            bases = []
+            x = r.random()
+            if cands and x < 0.55:
+                b1 = self.pick(cands)
+                bases = [b1]
+                if x < 0.22:
+                    rel = [c for c in cands if c is not b1 and not any(c is y for y in b1["mro"]) and not any(b1 is y for y in c["mro"])]
+                    dia = [c for c in rel if any(a is b for a in c["mro"] for b in b1["mro"])]
+                    pool = dia if dia and self.chance(0.7) else rel
+                    if pool:
+                        bases = [b1, self.pick(pool)]
+                        if self.c3(bases) is None:
+                            bases = [b1]
+        kind = self.pick(["plain", "plain", "box"]) if not bases else "plain"
         if kind == "box":
             run = self.fresh("run")
             extra = [(self.fresh("y"), 1)] if self.chance(0.4) else []
             self.main += [f"class {nm}:", "    def __init__(self, cb" + "".join(f", {n}={d}" for n, d in extra) + "):", "        self.cb = cb",
                           f"    def {run}(self, x):", "        return self.cb(x)"]
-            self.classes.append(dict(name=nm, methods=[], box=True, run=dict(name=run, extra=[]), ctor="cb", cparam="cb", cextra=extra))
+            self.add_class(dict(name=nm, methods=[], inherited=[], box=True, run=dict(name=run, extra=[]), ctor="cb", cparam="cb", cextra=extra))
             self.note("class-box")
             return
-        lines = [f"class {nm}({base['name']}):" if base else f"class {nm}:"]
-        ctor = base.get("ctor") if base else None
-        cparam = base.get("cparam", "x") if base else "x"
-        cextra = base.get("cextra", []) if base else []
-        own_init = self.chance(0.6)
+        mro_rest = self.c3(bases) or []
+        lines = [f"class {nm}(" + ", ".join(b["name"] for b in bases) + "):" if bases else f"class {nm}:"]
+        # effective constructor: first class of the MRO that defines one
+        eff = next((c for c in mro_rest if c.get("own_init")), None)
+        ctor, cparam, cextra = (eff["ctor"], eff.get("cparam", "x"), eff.get("cextra", [])) if eff else (None, "x", [])
+        own_init = self.chance(0.5)
+        base = bases[0] if len(bases) == 1 else None
         if own_init:
             cparam = self.pick(self.INT_NAMES)
             cextra = [(self.fresh("y"), 1)] if self.chance(0.3) else []
@@ -644,23 +773,39 @@ class ProgGen:
             else:
                 lines += [head, f"        self.v = {self.fcall(cparam)}" if self.chance(0.5) else f"        self.v = {cparam}"]
             ctor = "int"
+        # inherited methods in MRO order (first definition of each name wins)
+        binh, seen = [], set()
+        for c in mro_rest:
+            for m in c["methods"]:
+                if m["name"] not in seen:
+                    seen.add(m["name"])
+                    binh.append(dict(m, owner=c["name"]))
         methods = []
-        binh = (base["methods"] + base.get("inherited", [])) if base else []
-        for j in range(r.randint(1, 2)):
+        p_over = override if override is not None else 0.3
+        # overrides of inherited plain methods (same name and signature)
+        for bm in [x for x in binh if not x.get("cbp")]:
+            if self.chance(p_over):
+                ctx = dict(others=[x for x in list(methods) + binh if not x.get("cbp") and x["name"] != bm["name"]])
+                body = self.gen_action(8, "x", in_method=ctx)
+                lines += [f"    def {bm['name']}(self, x" + "".join(f", {n}={d}" for n, d in bm.get("extra", [])) + "):"] + body + ["        return t"]
+                methods.append(dict(name=bm["name"], extra=bm.get("extra", []), level=bm.get("level", 0) + 1))
+                self.note("override-method" + ("-multi-base" if len(bases) > 1 else ""))
+        binh = [x for x in binh if x["name"] not in {m["name"] for m in methods}]
+        for j in range(nmethods if nmethods is not None else r.randint(1, 2)):
             m = self.fresh("m")
             extra = [(self.fresh("y"), 1)] if self.chance(0.3) else []
             ctx = dict(others=[x for x in list(methods) + binh if not x.get("cbp")])
             body = self.gen_action(8, "x", in_method=ctx)
             lines += [f"    def {m}(self, x" + "".join(f", {n}={d}" for n, d in extra) + "):"] + body + ["        return t"]
             methods.append(dict(name=m, extra=extra))
-        # visitor method with a callback parameter: new, or overriding the base's (1-2 levels)
+        # visitor method with a callback parameter: new, or overriding an inherited one (1-2 levels)
         bvis = [x for x in binh if x.get("cbp")]
-        if bvis and self.chance(0.7):
+        if bvis and self.chance(0.7 if override is None else override):
             bm = self.pick(bvis)
-            vm = dict(bm)          # same name and parameters: an override
+            vm = {k: v for k, v in bm.items() if k != "owner"}          # same name and parameters: an override
             self.note("override-visit-2" if bm.get("level", 0) >= 1 else "override-visit")
             vm["level"] = bm.get("level", 0) + 1
-        elif self.chance(0.5):
+        elif not bvis and self.chance(0.5):
             vm = dict(name=self.fresh("visit"), cbp=self.pick(self.CB_NAMES), xp=self.pick(self.INT_NAMES), cb_first=self.chance(0.6),
                       extra=[(self.fresh("y"), 1)] if self.chance(0.3) else [], level=0)
             self.note("visit-method")
@@ -674,9 +819,33 @@ class ProgGen:
             lines += [f"    def {vm['name']}(self, " + ", ".join(ps) + "".join(f", {n}={d}" for n, d in vm.get("extra", [])) + "):"] + body + ["        return t"]
             methods.append(vm)
             binh = [x for x in binh if x["name"] != vm["name"]]
+        if len(lines) == 1:
+            lines.append("    pass")
         self.main += lines
-        self.classes.append(dict(name=nm, methods=methods, inherited=binh, ctor=ctor, cparam=cparam, cextra=cextra))
-        self.note("class-derived-2" if base and base.get("inherited") else ("class-derived" if base else "class"))
+        rec = self.add_class(dict(name=nm, methods=methods, inherited=binh, ctor=ctor, cparam=cparam, cextra=cextra, bases=bases,
+                                  own_init=own_init))
+        if len(bases) > 1:
+            self.note("class-multi-base" + ("-diamond" if any(a is b for a in bases[0]["mro"] for b in bases[1]["mro"]) else ""))
+        else:
+            self.note("class-derived-2" if bases and len(mro_rest) > 1 else ("class-derived" if bases else "class"))
+        return rec
+
+    def gen_hierarchy(self):
+        """a diamond family generated in one go: Base; Left(Base), Right(Base) each overriding or not;
+        Join(Left, Right) or Join(Right, Left) overriding or not; optionally a subclass of the join"""
+        base = self.gen_class(bases=[], nmethods=self.r.randint(1, 2))
+        if base is None:
+            return
+        self.pad() if self.chance(0.4) else None
+        left = self.gen_class(bases=[base], override=self.pick([0.0, 0.5, 1.0]), nmethods=self.r.randint(0, 1))
+        self.pad() if self.chance(0.4) else None
+        right = self.gen_class(bases=[base], override=self.pick([0.0, 0.5, 1.0]), nmethods=self.r.randint(0, 1))
+        pair = [left, right] if self.chance(0.5) else [right, left]
+        self.pad() if self.chance(0.4) else None
+        join = self.gen_class(bases=pair, override=self.pick([0.0, 0.0, 0.5]), nmethods=self.r.randint(0, 1))
+        if self.chance(0.4):
+            self.gen_class(bases=[join], override=self.pick([0.0, 0.3]), nmethods=1)
+        self.note("hierarchy-diamond")
 
     def generate(self):
         r = self.r
@@ -687,7 +856,7 @@ class ProgGen:
         plan = []
         n_items = int(r.randint(4, 8) * self.size)
         for _ in range(n_items):
-            plan.append(self.pick(["plain", "plain", "plain", "hof", "hof", "maker", "rec", "class", "class", "class", "leaf"]))
+            plan.append(self.pick(["plain", "plain", "plain", "hof", "hof", "maker", "rec", "class", "class", "class", "leaf", "hierarchy"]))
         for it in plan:
             getattr(self, "gen_" + it)()
             if self.chance(0.5):
@@ -707,16 +876,18 @@ class ProgGen:
             self.note("configured-entry")
         files = {}
         head = ["import sys"] + self.imports + ["D = sys.argv[1]"]
-        files["m.py"] = "\n".join(head + self.main + ep + top) + "\n"
+        mainf = self.mainmod + ".py"
+        files[mainf] = "\n".join(head + self.main + ep + top) + "\n"
         if self.helper:
-            files["u1.py"] = "\n".join(self.helper) + "\n"
+            files[self.hmod + ".py"] = "\n".join(self.helper) + "\n"
+            files.update(self.extra_files)
         if self.chance(self.w["second_entry"]) and self.helper:
             # a second file with top-level code: its %unit_init is a second entry point
             nm = [l.split("(")[0][4:] for l in self.helper if l.startswith("def ")]
-            files["u2.py"] = "\n".join([f"from u1 import {nm[0]}", "def w2(x):", f"    return {nm[0]}(x)", "s = w2(1)", "s = w2(2)"]) + "\n"
+            files["u2.py"] = "\n".join([f"from {self.hmod} import {nm[0]}", "def w2(x):", f"    return {nm[0]}(x)", "s = w2(1)", "s = w2(2)"]) + "\n"
             self.note("second-entry-file")
-        return dict(files=files, ndec=self.ndec, kinds=sorted(set(self.kinds)), main="m.py",
-                    runs=["m.py"] + (["u2.py"] if "u2.py" in files else []), ep=bool(ep))
+        return dict(files=files, ndec=self.ndec, kinds=sorted(set(self.kinds)), main=mainf,
+                    runs=[mainf] + (["u2.py"] if "u2.py" in files else []), ep=bool(ep))
 
 
 def gen_program(seed, size=1.0, weights=None):
@@ -877,6 +1048,20 @@ def run_lian(projdir, ws, settings):
         n = self.frame._lv_serial
         desc = [int(x) for x in res.interruption_data.callee_ids] if res.interruption_flag else []
         log["frames"][n]["script"].append([int(stmt_id), ids])
+        av = set()
+        try:
+            groups = list(args.positional_args) + list(args.named_args.values())
+            for g_ in groups:
+                for a_ in g_:
+                    st_ = self.frame.symbol_state_space[a_.index_in_space]
+                    if st_ is not None and hasattr(st_, "value") and self.is_state_a_method_decl(st_):
+                        try:
+                            av.add(int(float(st_.value)))
+                        except Exception:
+                            pass
+        except Exception:
+            pass
+        log["frames"][n].setdefault("cts", []).append([int(stmt_id), ids, desc, sorted(av)])
         cur["e"]["events"].append(["cts", n, int(self.frame.method_id), int(stmt_id), ids, desc])
         return res
 
@@ -1175,6 +1360,40 @@ def compare_model(log, reply):
 # (B) oracle: dynamic triples vs static edges / frames, explanation of misses
 # ------------------------------------------------------------------------------------------------
 
+def module_bindings(files, rel, _seen=None, star_all=False):
+    """static module-level bindings of a project file: name -> (how, defining file, defining name) with how in
+    "def" (def/class in this file), "name" (from-import by name, followed through project files) or "star"
+    (only visible through `from M import *`)"""
+    _seen = _seen or set()
+    if rel in _seen or rel not in files:
+        return {}
+    _seen = _seen | {rel}
+    try:
+        tree = ast.parse(files[rel])
+    except Exception:
+        return {}
+    out = {}
+    def modfile(m):
+        f = (m or "").replace(".", os.sep) + ".py"
+        return f if f in files else None
+    for n in tree.body:
+        if isinstance(n, (ast.FunctionDef, ast.ClassDef)):
+            out[n.name] = ("def", rel, n.name)
+        elif isinstance(n, ast.ImportFrom):
+            mf = modfile(n.module)
+            if not mf:
+                continue
+            src = module_bindings(files, mf, _seen, star_all)
+            for a in n.names:
+                if a.name == "*":
+                    for k, v in src.items():
+                        if (star_all or not k.startswith("_")) and k not in out:
+                            out[k] = ("star", v[1], v[2])
+                elif a.name in src:
+                    out[a.asname or a.name] = ("name", src[a.name][1], src[a.name][2])
+    return out
+
+
 def classify_call_syntax(files, rel, line, callee_key, callee_file=None, chain_files=None, prev=None, above=None):
     """Shape matchers for misses of call RESOLUTION (the part of lian the model does not cover).
     Looks only at the source text of the failing program."""
@@ -1248,6 +1467,47 @@ def classify_call_syntax(files, rel, line, callee_key, callee_file=None, chain_f
                                 imp_direct = True
             if imp_holder and not imp_direct:
                 return "C07/module-variable-callable"
+    # one definition imported into one file under two local names (e.g. `from u import f as g` and a later
+    # `from r import *` that brings f again): the import graph has ONE edge per (unit, symbol), the later import
+    # overwrites the local name of the earlier one
+    if callee_file is not None and not callee_key.startswith("<"):
+        target = (callee_file, callee_key.split(".")[0])
+        for orel in sorted(set(chain_files or [rel])):
+            if orel not in files:
+                continue
+            try:
+                ot = ast.parse(files[orel])
+            except Exception:
+                continue
+            local_names = set()
+            for n in ot.body:
+                if isinstance(n, ast.ImportFrom):
+                    mf = (n.module or "").replace(".", os.sep) + ".py"
+                    if mf not in files:
+                        continue
+                    src = module_bindings(files, mf, star_all=True)      # lian's star import also brings _names
+                    for a in n.names:
+                        if a.name == "*":
+                            local_names |= {k for k, v in src.items() if (v[1], v[2]) == target}
+                        elif a.name in src and (src[a.name][1], src[a.name][2]) == target:
+                            local_names.add(a.asname or a.name)
+            if len(local_names) >= 2:
+                return "C07/same-definition-imported-twice"
+    # names only visible through `from M import *`: the dynamic callee (a function, or the class of a method /
+    # constructor) is bound in the files of the callers on this chain ONLY by a star import, never by def or by
+    # an import by name: lian does not bind star-imported names in the importing unit
+    if callee_file is not None and not callee_key.startswith("<"):
+        target = (callee_file, callee_key.split(".")[0])
+        by_name = by_star = False
+        for orel in sorted(set(chain_files or [rel])):
+            for k, (how, df, dn) in module_bindings(files, orel).items():
+                if (df, dn) == target:
+                    if how == "star":
+                        by_star = True
+                    else:
+                        by_name = True
+        if by_star and not by_name:
+            return "C07/star-import-names-unbound"
     calls = [n for n in ast.walk(tree) if isinstance(n, ast.Call) and n.lineno == line]
     # enclosing function of the line
     encl = None
@@ -1314,6 +1574,24 @@ def classify_call_syntax(files, rel, line, callee_key, callee_file=None, chain_f
         if isinstance(fn, ast.Attribute) and isinstance(fn.value, ast.Call) and isinstance(fn.value.func, ast.Name) \
                 and fn.value.func.id == "super" and callee_key.endswith(fn.attr):
             return "C07/super-call"
+        # self.<m>(...) inside a method of class A whose run-time callee is B.<m> with B a subclass of A
+        if isinstance(fn, ast.Attribute) and isinstance(fn.value, ast.Name) and fn.value.id == "self" and encl is not None \
+                and "." in callee_key and callee_key.split(".")[1] == fn.attr:
+            classes = {n.name: n for n in ast.walk(tree) if isinstance(n, ast.ClassDef)}
+            a_cls = next((n for n in classes.values() if encl in n.body), None)
+            b_name = callee_key.split(".")[0]
+            def ancestors(nm, seen=()):
+                res = set()
+                c_ = classes.get(nm)
+                if c_ is None or nm in seen:
+                    return res
+                for b_ in c_.bases:
+                    if isinstance(b_, ast.Name):
+                        res.add(b_.id)
+                        res |= ancestors(b_.id, seen + (nm,))
+                return res
+            if a_cls is not None and b_name != a_cls.name and a_cls.name in ancestors(b_name):
+                return "C07/self-call-dispatch-to-subclass"
         # K3: self.<field>(...) inside a method, where <field> is not a method name but an instance field
         if isinstance(fn, ast.Attribute) and isinstance(fn.value, ast.Name) and fn.value.id == "self" and encl is not None:
             cls = None
@@ -1454,7 +1732,44 @@ def explain_chain(prog, chain, inv, frames, frames_by_path, reasons, lines, meth
             else:
                 link.update(finding=None, why="resolved here, no frame, and the first decision was not a cut-off (first decisions=%s)" % sorted(rs))
             return link
-        f = classify_call_syntax(prog["files"], cf, line, ek, ef, [x[0] for x in chain],
+        # the callable arrives as an ARGUMENT, but never in an invocation that descends: at some call above on this
+        # chain the call statement carries the function among its argument values only in visits that do not
+        # descend into the callee (it was descended into earlier, before the value had arrived, or in another
+        # context; now path stored / already analysed / budget): scheduling order defect + no re-descent
+        late = None
+        for j in range(i - 1, -1, -1):
+            cj, lj, sj = ctx[j]
+            callee_j = inv.get((chain[j][3], chain[j][4]), [None])[0]
+            for n in sorted(sj):
+                carried = descended_with = False
+                for (st_, cs_, ds_, av_) in frames[n].get("cts", []):
+                    if lines.get(st_, -1) != lj or callee_j not in cs_ or e_id not in av_:
+                        continue
+                    carried = True
+                    if callee_j in ds_:
+                        descended_with = True
+                if carried and not descended_with:
+                    late = j
+            if late is not None:
+                break
+        if late is None:
+            # the same for a value handed to a SIBLING call in this very frame (e.g. stored by a constructor:
+            # bx = Box(cb=v); bx.cb(2)): a call statement of this frame carries the function among its argument
+            # values, but never in an invocation that descended
+            for n in sorted(serials):
+                by_stmt = {}
+                for (st_, cs_, ds_, av_) in frames[n].get("cts", []):
+                    if e_id in av_:
+                        rec = by_stmt.setdefault(st_, [False])
+                        if ds_:
+                            rec[0] = True
+                if any(not r_[0] for r_ in by_stmt.values()):
+                    late = i
+        if late is not None:
+            link.update(finding="C07/argument-value-arrives-after-descent", unresolved=True, at_link=late,
+                        why="the call above descended into the callee before this function was among its argument values; a later visit of the same call statement carries it but no longer descends")
+            return link
+        f = classify_call_syntax(prog["files"], cf, line, ek, ef, [x[0] for x in chain[:i + 1]],
                                  prev=(chain[i - 1][0], chain[i - 1][2]) if i > 0 else None,
                                  above=[(x[0], x[2]) for x in chain[:i]])
         if f:
